@@ -48,7 +48,7 @@ def run_scenario(binary, sc, keep=False):
                 f.write(data)
         for name in sc.get("dirs", []):
             os.makedirs(os.path.join(d, name))
-        argv = list(sc["opts"]) + list(sc["cmds"]) + [n for n, _ in sc["files"] if n not in sc.get("unnamed", [])]
+        argv = list(sc["opts"]) + list(sc["cmds"]) + [n for n, _ in sc["files"] if n not in sc.get("unnamed", [])] + list(sc.get("extra_args", []))
         rc, out, err, units = run_with_records(binary, argv, sc.get("stdin") or "", sc.get("env"), cwd=d,
                                                timeout=sc.get("timeout", 30))
         final = {}
